@@ -518,6 +518,25 @@ def initkind(pid):
                         res.ok({"function": f.path, "chain": row["what"], "call": c.name.split("::")[-1], "init": init}, nontrivial=True)
                     else:
                         res.fail(Finding(res.rule, key + "/wrong-initialiser", "the %s chain is handled with %s in %s (line %d); sectors added through this chain object would be initialised as %s instead of %s (%s)" % (row["what"], init, c.name.split("::")[-1], c.line, init, row["init"], row["why"]), f, c.term["span"]))
+        # stream data chains: whatever the stream layer opens holds stream bytes, and a sector added to it must
+        # read as zeros until written (SectorInit::Fat fills with 0xFF, SectorInit::Dir with blank entries)
+        ns = 0
+        for f in ctx.fx.fns.values():
+            if not f.path.startswith("internal::stream::") and "<internal::stream::" not in f.path:
+                continue
+            v = view(ctx, f)
+            pr = None
+            for bb, c in sorted(v.calls.items()):
+                if not re.search(r"MiniAllocator::<F>::open_chain$", c.name) or len(c.term["args"]) < 3:
+                    continue
+                pr = pr or Prov(f)
+                init = pr.operand(c.term["args"][2])
+                ns += 1
+                if init == "SectorInit::Zero()":
+                    res.ok({"function": f.path, "chain": "stream data", "init": init, "line": c.line})
+                else:
+                    res.fail(Finding(res.rule, "R-INITKIND/%s/stream-data/wrong-initialiser" % f.path, "a stream's data chain is opened with %s in %s (line %d): sectors added to it are not zero-filled, so bytes gained by growing the stream (or the slack of a new last sector) read as that pattern" % (init, f.path.split("::")[-1], c.line), f, c.term["span"]))
+        res.floor("stream data chains opened in the stream layer", ns, ctx.table("floors").get("initkind_stream_sites", 0))
         res.floor("typed-chain calls", n, ctx.table("floors").get("initkind_sites", 0))
         return res
     return run
@@ -1271,5 +1290,132 @@ def freebeforeremove(pid):
                 else:
                     res.ok({"function": f.path, "line": c.line, "behind": "free_chain/free_mini_chain or a not-a-stream branch"}, nontrivial=True)
         res.floor("removals of directory entries above the directory layer", n, ctx.table("floors").get("freefirst_sites", 0))
+        return res
+    return run
+
+
+def handon(pid):
+    """R-HANDON: when a node of the sibling tree is taken out, what hangs below it is handed on to whoever takes its
+    place.  With one subtree empty and the other not, the one that is handed on must be the non-empty one: a copy of
+    a link variable that is known (on that path) to be NO_STREAM, made while the node's OTHER link is known not to be,
+    drops the whole other subtree - every name in it disappears from lookups and listings, though the entries and
+    their sectors stay allocated."""
+    def run(ctx):
+        res = RuleResult("R-HANDON(%s)" % pid, "in the directory layer no copy of a sibling-link variable is made on a path where that link is known to be NO_STREAM while the same node's other sibling link is known not to be")
+        n = 0
+        for f in ctx.fx.fns.values():
+            if not f.path.startswith("internal::directory::"):
+                continue
+            pr = Prov(f)
+            dn = f.debug_names()
+            links = {}
+            for l, nm in dn.items():
+                ds = [pr._def(d, 1, (l,)) for d in pr.defs.get(l, [])]
+                if len(ds) == 1:
+                    m = re.match(r"^Directory::dir_entry\(param:self,(var:\w+|param:\w+)\)\.(left_sibling|right_sibling)$", ds[0])
+                    if m:
+                        links[nm] = (m.group(1), m.group(2))
+            if len(links) < 2:
+                continue
+            g = _guards(ctx, f)
+            for bb, blk in enumerate(f.blocks):
+                if blk["cleanup"]:
+                    continue
+                for i, st in enumerate(blk["stmts"]):
+                    if st["s"] != "assign" or st["rv"]["r"] != "use" or st["rv"]["op"]["k"] not in ("copy", "move") or st["rv"]["op"]["place"]["proj"]:
+                        continue
+                    src = dn.get(st["rv"]["op"]["place"]["local"])
+                    if src not in links or st["place"]["proj"]:
+                        continue
+                    node, fld = links[src]
+                    other = [nm for nm, (nd, fl) in links.items() if nd == node and fl != fld]
+                    if not other:
+                        continue
+                    n += 1
+                    atoms = g.atoms_at(("s", bb, i))
+                    def canon(nm_):
+                        nd_, fl_ = links[nm_]
+                        return "(?:var:%s|%s)" % (re.escape(nm_), re.escape("Directory::dir_entry(param:self,%s).%s" % (nd_, fl_)))
+                    empty = any(re.match(r"^\(Eq\(%s,const:(\w+::)*NO_STREAM\)\)$" % canon(src), a) for a in atoms)
+                    other_full = any(re.match(r"^\(Ne\(%s,const:(\w+::)*NO_STREAM\)\)$" % canon(other[0]), a) for a in atoms)
+                    if empty and other_full:
+                        res.fail(Finding(res.rule, "R-HANDON/%s/empty-link-handed-on" % f.path, "%s hands on `%s` (the %s link of %s) on a path where it is known to be NO_STREAM while `%s` is known not to be: the non-empty subtree is dropped from the sibling tree - its names vanish from lookups and listings" % (f.path.split("::")[-1], src, fld.split("_")[0], node, other[0]), f, st["span"]))
+                    else:
+                        res.ok({"function": f.path, "copied_link": src, "line": st["span"]["line"], "known_empty": empty, "other_known_non_empty": other_full}, nontrivial=True)
+        res.floor("copies of sibling-link variables", n, ctx.table("floors").get("handon_sites", 0))
+        return res
+    return run
+
+
+def slotid(pid):
+    """R-SLOTID: allocate_dir_entry hands out either the index of the slot its scan found unallocated or the length of
+    the table (the slot it appends).  The id it returns IS that number: any arithmetic on it names a neighbouring
+    slot, whose live entry the caller then overwrites (and whose open handles are silently re-bound)."""
+    def run(ctx):
+        res = RuleResult("R-SLOTID(%s)" % pid, "every Ok payload of Directory::allocate_dir_entry is the scan's own index or the table length, with no arithmetic applied")
+        f = ctx.fx.fns.get("internal::directory::Directory::<F>::allocate_dir_entry")
+        if f is None:
+            res.gone.append("allocate_dir_entry")
+            return res
+        pr = Prov(f)
+        names = {nm: l for l, nm in f.debug_names().items()}
+        n = 0
+        for bb, blk in enumerate(f.blocks):
+            if blk["cleanup"]:
+                continue
+            for i, st in enumerate(blk["stmts"]):
+                if st["s"] == "assign" and st["place"]["local"] == 0 and not st["place"]["proj"] and st["rv"]["r"] == "aggregate" and st["rv"].get("variant") == "Ok":
+                    n += 1
+                    val = pr._def((bb, i, st), 0, ())
+                    m = re.match(r"^Result::Ok\((.*)\)$", val)
+                    inner = m.group(1) if m else val
+                    mv = re.match(r"^var:(\w+)$", inner)
+                    if mv and mv.group(1) in names:
+                        ds = [pr._def(d, 1, (names[mv.group(1)],)) for d in pr.defs.get(names[mv.group(1)], [])]
+                        if len(ds) == 1:
+                            inner = ds[0]
+                    inner = re.sub(r"^cast\((.*)\)$", r"\1", inner)
+                    if re.search(r"\b(Add|Sub|Mul|Div|BitOr|BitAnd|Shl|Shr)\(|saturating_|wrapping_|checked_", inner):
+                        res.fail(Finding(res.rule, "R-SLOTID/%s/arithmetic-on-slot-id" % f.path, "allocate_dir_entry returns %s: the id it hands out is not the slot it found free (or appended) but a neighbour of it; the caller overwrites that slot's live entry, and handles open on it now refer to the new object" % inner[:100], f, st["span"]))
+                    else:
+                        res.ok({"function": f.path, "returns": inner[:90], "line": st["span"]["line"]}, nontrivial=True)
+        res.floor("Ok payloads of allocate_dir_entry", n, ctx.table("floors").get("slotid_sites", 0))
+        return res
+    return run
+
+
+def keepcount(pid):
+    """R-KEEPCOUNT: shrinking a chain to N sectors frees everything after sector_ids[N - 1].  The call that cuts the
+    chain sits under the test `N < sector_ids.len()`; its argument must be the id at index N - 1 of the same list.
+    Index N keeps one sector too many (its old bytes come back when the stream grows again); index N - 2 frees a
+    sector the length still covers."""
+    def run(ctx):
+        res = RuleResult("R-KEEPCOUNT(%s)" % pid, "every free_chain_after / free_mini_chain_after on an element of self.sector_ids under a guard N < sector_ids.len() takes the element at index N - 1")
+        n = 0
+        for f in ctx.fx.fns.values():
+            if not re.search(r"internal::(chain|minichain)::", f.path):
+                continue
+            v = view(ctx, f)
+            pr = None
+            for bb, c in sorted(v.calls.items()):
+                if not re.search(r"::(free_chain_after|free_mini_chain_after)$", c.name) or len(c.term["args"]) < 2:
+                    continue
+                pr = pr or Prov(f)
+                a = pr.operand(c.term["args"][1])
+                m = re.match(r"^(?:deref\()?Index<I>::index\(param:self\.sector_ids,(.*)\)\)?$", a)
+                if not m:
+                    continue
+                k = m.group(1)
+                atoms = _guards(ctx, f).atoms_at(("t", bb))
+                ns = [re.match(r"^\(Lt\((.*),len\(param:self\.sector_ids\)\)\)$", x) for x in atoms]
+                ns = [x.group(1) for x in ns if x]
+                if not ns:
+                    continue
+                n += 1
+                if any(k == "Sub(%s,const:1)" % nn for nn in ns):
+                    res.ok({"function": f.path, "line": c.line, "keeps": ns[0][:60], "cuts_after_index": k[:60]}, nontrivial=True)
+                else:
+                    res.fail(Finding(res.rule, "R-KEEPCOUNT/%s/cut-at-wrong-index" % f.path, "%s is to keep %s sectors (the guard is %s < sector_ids.len()) but cuts the chain after index %s instead of %s - 1: one sector too many stays linked (a later grow exposes its old bytes) or one too few" % (f.path.split("::")[-1], ns[0][:50], ns[0][:50], k[:50], ns[0][:50]), f, c.term["span"]))
+        res.floor("chain cuts", n, ctx.table("floors").get("keepcount_sites", 0))
         return res
     return run
